@@ -116,6 +116,9 @@ def main(argv=None):
     known = load_known()
     violations, known_hits, unreplayed = [], [], []
     os.makedirs(os.path.join(HERE, "replays"), exist_ok=True)
+    for fn in os.listdir(os.path.join(HERE, "replays")):
+        if fn.startswith(prop + "_") and not filt and not args.only:
+            os.unlink(os.path.join(HERE, "replays", fn))
     reproduced = 0
     for key, cands in sorted(total["cands"].items()):
         ok = None
